@@ -110,6 +110,7 @@ class Body:
         self.impl_self = rec.get("impl_self")
         self.n = len(self.blocks)
         self.promoted_recs = rec.get("promoted", [])
+        self.inlined_params = set(rec.get("inlined_params", []))
         self._promoted = {}
         self._succ = None
         self._pred = None
@@ -736,7 +737,14 @@ def matcher(pred):
 class Program:
     def __init__(self, facts):
         self.facts = facts
+        # calls to local functions that are not on the reviewed tree's list are replaced by the callee's blocks (inline.py)
+        from . import inline
+        self.inlined = inline.apply(facts)
         self.bodies = {p: Body(p, r, self) for p, r in facts["bodies"].items()}
+        # the function-at-a-time view (each function as written, helpers not inlined) for per-function rules such as ERR-1
+        self.bodies_as_written = dict(self.bodies)
+        for p, r in (facts.get("bodies_before_inlining") or {}).items():
+            self.bodies_as_written[p] = Body(p, r, self)
         self.impls = facts["impls"]
         self.structs = facts.get("structs", {})
         self.trait_impls = defaultdict(list)  # trait method path -> [impl method path]
